@@ -119,6 +119,13 @@ pub fn check_one(value: f64, acc: f32, max_den: u8, max_whole: u32, last_display
                             }
                             _ => fail!("printed form is not `w n/d`", "printed {printed:?}"),
                         }
+                        // the same through format specifications a caller may use (width, alignment, precision)
+                        for (spec, text) in [("{:.1}", format!("{n:.1}")), ("{:.3}", format!("{n:.3}")), ("{:>12}", format!("{n:>12}"))] {
+                            match parse_printed(text.trim()) {
+                                Some((w, pn, pd)) if pd != 0 && (w as u128 * pd as u128 + pn as u128) * den as u128 == (whole as u128 * den as u128 + num as u128) * pd as u128 => {}
+                                _ => fail!("printed form denotes another fraction", "printed with `{spec}`: {text:?}"),
+                            }
+                        }
                     }
                     None
                 }
@@ -221,7 +228,7 @@ fn frac_envs() -> Vec<FracEnv> {
         }
     }
     // a later layer that changes system- and quantity-level settings which earlier per-unit entries inherit
-    let layer_src = "[fractions]\nimperial = { enabled = true, accuracy = 0.01, max_whole = 10 }\n[fractions.quantity]\nmass = { enabled = true, max_denominator = 2 }\n";
+    let layer_src = "[fractions]\nimperial = { enabled = true, accuracy = 0.01, max_whole = 10 }\n[fractions.quantity]\nmass = { enabled = true, max_denominator = 2 }\n[fractions.unit]\nqt = { accuracy = 0.2, max_denominator = 2 }\n";
     if let Ok(layer) = toml::from_str::<UnitsFile>(layer_src) {
         let mut layers = base_layers.clone();
         layers.extend(layer.fractions.clone());
